@@ -99,6 +99,21 @@ BuildViol(a, mem) ==
           ELSE IF Cardinality(B) # want \/ (\E j \in B : mem[j][3] # Cfg.esz \/ mem[j][4] # Cfg.ealign)
                THEN {V1(<<"C05">>, "built_once_with_layout")} ELSE {}
 
+(* a stateful user builder (configurations whose builder logs its life, Cfg.bld): the vector's builder is created by the *)
+(* caller, moved - never copied - through a raw-parts round trip, cloned exactly where the API makes a second vector      *)
+(* (clone: 1; clone_empty + clone of the twin in the probe: 2; RawParts::clone: 1), and every builder is dropped exactly   *)
+(* once with its vector: creations + clones = drops on every step, since the number of vectors never changes               *)
+Tracked == "bld" \in DOMAIN Cfg /\ Cfg.bld
+BuilderViol(a, mem) ==
+  IF ~Tracked THEN {}
+  ELSE LET news == Cardinality(MemKinds(mem, {14}))  clones == Cardinality(MemKinds(mem, {15}))  drops == Cardinality(MemKinds(mem, {16}))
+           want == CASE a.op = "clone_vec" -> 1
+                     [] a.op = "ce_probe" /\ a.via = "same" -> 2
+                     [] a.op = "raw_roundtrip" /\ "clone" \in DOMAIN a /\ a.clone -> 1
+                     [] OTHER -> 0
+       IN (IF clones # want THEN {V1(IF a.op = "raw_roundtrip" THEN <<"C17">> ELSE <<"C08", "C17">>, "builder_moved_not_copied")} ELSE {})
+          \cup (IF news + clones # drops THEN {V1(IF a.op = "raw_roundtrip" THEN <<"C17">> ELSE <<"C05", "C17">>, "builder_dropped_once")} ELSE {})
+
 (* a clone_empty_in probe builds a temporary vector on the requested backend: allocator traffic is expected exactly when *)
 (* that backend is the heap (or the source's own resizable backend)                                                    *)
 ProbeMem(a, mem) ==
@@ -223,6 +238,8 @@ TdMemViol(ev) ==
        \cup (IF ev.td.nblk # 0 THEN {V1(<<"C18", "C05">>, "all_returned")} ELSE {})
        \cup (IF Cfg.backend = "fence" /\ Cardinality(MemKinds(ev.td.mem, {13})) # Cardinality(Vecs)
              THEN {V1(<<"C05">>, "released_once")} ELSE {})
+       \cup (IF Tracked /\ Cardinality(MemKinds(ev.td.mem, {16})) # Cardinality(Vecs) + Cardinality(MemKinds(ev.td.mem, {14, 15}))
+             THEN {V1(<<"C05", "C17">>, "builder_dropped_once")} ELSE {})
 
 TdViol(s2, ev, extra) ==
   IF ev.td.skip THEN {}
@@ -319,7 +336,7 @@ Judge(stb, ev) ==
             ELSE IF x.lat \in {"panic", "liar"} THEN AdoptAfterPanic(stb, x, ev)
             ELSE AdoptAll([x.st EXCEPT !.leaked = stb.leaked], post, gone \ ToSet(ev.drops))
       capv == (IF diverged THEN {} ELSE CapViol(stb, x, [ev EXCEPT !.mem = ProbeMem(a, @)])) \cup ProtoViol(ProbeMem(a, ev.mem), post.canary)
-              \cup (IF ev.res = "ok" THEN BuildViol(a, ev.mem) ELSE {})
+              \cup (IF ev.res = "ok" THEN BuildViol(a, ev.mem) \cup BuilderViol(a, ev.mem) ELSE {})
               \cup ProtoViol([j \in 1..Len(ev.mem) |-> IF ev.mem[j][1] \in {1, 2, 3} THEN <<0, 0, 0, 0, 0, 0>> ELSE ev.mem[j]], post.canary)
       tdv == IF diverged THEN {} ELSE TdViol(s2, ev, (IF IsForget(a) THEN <<"C07">> ELSE <<>>) \o (IF "dyn" \in DOMAIN ev THEN <<"C06">> ELSE <<>>))
   IN [st |-> s2, bad |-> diverged, viol |-> viol0 \cup AddProps(capv \cup TdMemViol(ev), Derived(stb, a)) \cup tdv]
@@ -344,8 +361,9 @@ TSpec == TInit /\ [][TNext]_tvars
 InitViol == CapViol(Init0, Out(Init0, "ok", <<>>, <<>>), [post |-> Rec[1].init, mem |-> Rec[1].init.mem])
             \cup ProtoViol(Rec[1].init.mem, Rec[1].init.canary)
             \cup (IF Cfg.backend = "fence" /\
-                     (Len(Rec[1].init.mem) # Cardinality(Vecs) \/
-                      \E j \in 1..Len(Rec[1].init.mem) : Rec[1].init.mem[j][1] # 10 \/ Rec[1].init.mem[j][3] # Cfg.esz \/ Rec[1].init.mem[j][4] # Cfg.ealign)
+                     (Cardinality(MemKinds(Rec[1].init.mem, {10})) # Cardinality(Vecs) \/
+                      MemKinds(Rec[1].init.mem, {10, 14}) # 1..Len(Rec[1].init.mem) \/
+                      \E j \in MemKinds(Rec[1].init.mem, {10}) : Rec[1].init.mem[j][3] # Cfg.esz \/ Rec[1].init.mem[j][4] # Cfg.ealign)
                   THEN {V1(<<"C05">>, "built_once_with_layout")} ELSE {})
 InitOk == InitViol = {} \/ PrintT(ToJson([node |-> 0, viol |-> SetToSeq(InitViol)]))
 ASSUME InitOk
